@@ -5,6 +5,7 @@ import Percival.Proofs.AfStep
 import Percival.Proofs.UpStep
 import Percival.Proofs.AfMonSound
 import Percival.Proofs.UpMonSound
+import Percival.Proofs.UpMonSoundG
 /-!
 # C14 — allocation failure is reported, leaves objects unchanged and leaks nothing (proof-level part)
 
@@ -675,5 +676,71 @@ theorem up_monitor_accepts_model_partial (ops : List UpStep.Op) (wf : WFRun {} o
     ∀ p ∈ (UpStep.runOps {} ops).zip ops,
       (Spec.UpMon.monStep () (UpStep.kindOf p.2) p.1.2.ans).2 = none :=
   up_run_sound {} ops uinv_init wf
+
+/-! ### `WF` is an invariant: the full statements
+
+`Proofs/UpMonSoundG.lean`.  `UInvC s n` = `UInv s` and `CInv (tables s.w) n`: at most `n` connects are outstanding in the
+world, and every outstanding `network_write` and every buffered writer sits on a slot descriptor (≥ 64).  With at most
+60 connects outstanding the descriptor `freshFd` picks (the lowest one ≥ 3 that is not the socket of an outstanding
+connect) is below 64 and not a connect's socket, so — the registry being exactly the registrations the objects hold
+(`Inv.regNet`) — it has no write registration; the timers are those of the connects (`Inv.regTm`).  `OpsOk ops`
+(decidable on the op list): no `nc_start` / `hq_start` line is reached with more than 60 such lines since the last `end`
+(`opsOk_of_count`: in particular every op list with at most 61 of them).  Nothing is assumed about handles, slots, lengths,
+address patterns or timeouts (`Driver/Upmodel.parseOp` accepts any number; any `timeo` is within `Ready`).  The bound
+cannot be dropped (last example). -/
+
+open Percival.Proofs.UpMonSound in
+/-- **One line, no hypothesis on the state beyond the invariants** (`n` bounds the connects outstanding; a connect
+line needs `n ≤ 60`): the monitor accepts the line `pmodel upmodel` prints, and the invariants hold afterwards with the
+bound `budget n op` (`0` after `end`, `n + 1` after a connect line, `n` otherwise). -/
+theorem up_monitor_accepts_model_step (s : UpStep.S) (op : UpStep.Op) (n : Nat) (h : UInvC s n)
+    (hn : isConn op = true → n ≤ 60) :
+    (Spec.UpMon.monStep () (UpStep.kindOf op) (UpStep.stepOp s op).2.ans).2 = none ∧
+    UInvC (UpStep.stepOp s op).1 (budget n op) :=
+  up_step_sound_full s op n h hn
+
+example : Proofs.UpMonSound.UInvC ({} : UpStep.S) 0 := Proofs.UpMonSound.uinvC_init
+/-- `WF` — the hypothesis of `up_monitor_accepts_model_step_partial` — is now a theorem, also for a connect line -/
+example : Proofs.UpMonSound.WF {} (.ncStart 0 [.failNow, .success] (some 2500000)) :=
+  Proofs.UpMonSound.wf_of_cinv _ _ 0 Proofs.UpMonSound.uinvC_init.u Proofs.UpMonSound.uinvC_init.c (fun _ => by decide)
+/-- the connect is made, on descriptor 3; under `failat 2` (the request after the cookie: setting up the timer) it fails with one refusal -/
+example :
+    UpStep.callOf {} (.ncStart 0 [.failNow, .success] (some 2500000)) =
+      some (.connect [.failNow, .success] (some 2500000) 3) ∧
+    (UpStep.stepOp (UpStep.stepOp {} (.failat 2)).1 (.ncStart 0 [.failNow, .success] (some 2500000))).2.ans =
+      { head := .fail, ntoks := 2, rf := some 1 } := ⟨rfl, by decide +kernel⟩
+
+open Percival.Proofs.UpMonSound in
+/-- **Whole cases from the initial state** (the full statement of `up_monitor_accepts_model_partial`): for every op
+list satisfying `OpsOk`, under whatever failure schedules the case sets, `Spec.UpMon.monStep` accepts every line
+`Model.UpStep.stepOp` answers — a failure always comes with `rf > 0`, a release is never `model-contract`, `end`
+shows `live=0 leaked=0`. -/
+theorem up_monitor_accepts_model (ops : List UpStep.Op) (hok : OpsOk ops) :
+    ∀ p ∈ (UpStep.runOps {} ops).zip ops,
+      (Spec.UpMon.monStep () (UpStep.kindOf p.2) p.1.2.ans).2 = none :=
+  up_run_sound_full ops hok
+
+/-- the generator's fixed sequence (`tools/props/c14.py`, `bases_upstart`: every start made twice, every cancel /
+free) under `failat 11` satisfies `OpsOk`; so does every case with at most 61 connect lines -/
+example : Proofs.UpMonSound.OpsOk [.failat 11, .start .read 0 0, .start .read 0 0, .start .write 0 0, .start .write 0 0,
+    .start .accept 0 1, .start .accept 0 1, .ncStart 0 [.success] (some 1000000), .ncStart 0 [.success] (some 1000000),
+    .ncStart 1 [] none, .ncStart 1 [] none, .nbrInit 0 2, .nbrInit 0 2, .nbrWait 0 0, .nbrWait 0 0, .rel .nbrCancel 0,
+    .nbrWait 0 9000, .nbrWait 0 9000, .nbwInit 0 3, .nbwInit 0 3, .nbwWrite 0 10, .nbwWrite 0 5000, .nbwReserve 0 100,
+    .nbwReserve 0 100, .nbwConsume 0 100, .hqStart 0 [.success] 3, .hqStart 0 [.success] 3, .rel .hqCancel 0,
+    .rel .nbwFree 0, .rel .nbrCancel 0, .rel .nbrFree 0, .rel .ncCancel 1, .rel .ncCancel 0, .rel .naCancel 0,
+    .rel .nwCancel 0, .rel .nrCancel 0, .end_] := by decide
+example (ops : List UpStep.Op) (h : ops.countP Proofs.UpMonSound.isConn ≤ 61) : Proofs.UpMonSound.OpsOk ops :=
+  Proofs.UpMonSound.opsOk_of_count ops h
+
+/-- without `OpsOk` the statement is false for the model: a `network_write` on slot 0 (descriptor 64) and 62
+connects — 32 `nc_start`, 30 `hq_start` — outstanding; the model's `freshFd` gives the 62nd the descriptor 64, the
+registration answers EEXIST, the line is `fail rf=0`.  (The harness' `socket()` would return 88: the model follows
+the kernel's choice of descriptor only below 60.) -/
+example :
+    let ops : List UpStep.Op := .start .write 0 0 ::
+      ((List.range 32).map fun i => UpStep.Op.ncStart i [.success] none) ++
+      ((List.range 30).map fun i => UpStep.Op.hqStart i [.success] 0)
+    (((UpStep.runOps {} ops).zip ops).all fun p =>
+      (Spec.UpMon.monStep () (UpStep.kindOf p.2) p.1.2.ans).2 == none) = false := by decide +kernel
 
 end Percival.C14
